@@ -17,7 +17,7 @@ ROOT = os.path.dirname(os.path.dirname(os.path.abspath(__file__)))
 
 # id, expected checks, file, old, new, description
 M = [
- ("M01","C10 C18","txn_lock.go","\tlock.RLock(uint(chunk))\n\terr = f(Row{txn})\n\tlock.RUnlock(uint(chunk))","\terr = f(Row{txn})","QueryAt without the block read latch"),
+ ("M01","C10 C18","txn_lock.go","\tlock := txn.owner.slock\n\ttxn.cursor = index\n\n\tchunk := commit.ChunkAt(index)\n\tlock.RLock(uint(chunk))\n\terr = f(Row{txn})\n\tlock.RUnlock(uint(chunk))","\ttxn.cursor = index\n\terr = f(Row{txn})","QueryAt without the block read latch"),
  ("M02","C15 C08","txn_lock.go","\t\tlock.Lock(uint(chunk))\n\t\tcommitID := commit.Next() // must be drawn under the latch, IDs order commits of a chunk","\t\tcommitID := commit.Next()\n\t\tlock.Lock(uint(chunk))","commit id drawn before the latch (reverts fix D07; hook position differs from the original)"),
  ("M03","C15","commit/commit.go","\tclone.ID = c.ID\n","","Commit.Clone without the id"),
  ("M04","C06","commit/log.go","\tw <- commit.Clone()","\tw <- commit","Channel.Append without Clone"),
